@@ -7,16 +7,19 @@
     it decides which updates reach the estimator) and the [ProgressBar] entry points that feed
     the estimator (progress_bar.rs:221-396), parameterised by the arithmetic [arith]:
 
-      - instance [Rar]  : Coq real numbers, weight [Rpower (1/10) (t/15)]  -> theorems (EstimatorProofs.v)
-      - instance [Par]  : binary64 via Coq primitive floats, [powf] supplied as data  -> correspondence
-      - instance [Far]  : binary64 via Flocq (pure Gallina), [powf] supplied as data  -> cross-check
+      - instance [Rar]    : Coq real numbers, weight [Rpower (1/10) (t/15)]  -> theorems
+                            (EstimatorProofs.v, EstimatorBarProofs.v)
+      - instance [PF.ar]  : binary64 via Coq primitive floats, [powf] supplied as data  -> correspondence
+      - instance [FL.ar]  : binary64 via Flocq (pure Gallina), [powf] supplied as data  -> cross-check
+    The two binary64 instances and the correspondence checker [est_check] live in
+    EstimatorFloat.v, so that the theorems (props/C09.v) do not load Coq's primitive floats /
+    integers at all (coqchk lists those primitives as axioms of the context).
 
     Definitions only; no proofs in this file. *)
 From IndModel Require Export Base.
 From IndGen Require Import Constants.
 From Coq Require Import Reals.
-From Coq Require Floats.
-From Flocq Require Core.Raux IEEE754.BinarySingleNaN IEEE754.Binary IEEE754.Bits IEEE754.PrimFloat.
+From Flocq Require Core.Raux.
 Open Scope N_scope.
 
 (** * Arithmetic interface: what the Rust code does with f64 *)
@@ -271,124 +274,3 @@ Definition Rar : arith := {|
   trunc := fun x => IZR (Flocq.Core.Raux.Ztrunc x);
   cast := R_cast
 |}.
-
-(** * binary64 instances: [powf] is DATA – a table (exponent bits -> result bits) filled by the
-    harness with what [0.1_f64.powf(x)] returned on this machine.  A missing entry yields -1.0,
-    which no genuine weight can be, so the comparison fails loudly. *)
-Definition NAN_BITS : N := 9221120237041090560.       (* 0x7FF8_0000_0000_0000, canonical quiet NaN *)
-Fixpoint table_find (k : N) (t : list (N * N)) : option N :=
-  match t with
-  | [] => None
-  | (a, w) :: r => if a =? k then Some w else table_find k r
-  end.
-
-Module FL.   (* Flocq, pure Gallina *)
-  Import Flocq.IEEE754.BinarySingleNaN.
-  Definition F := binary_float 53 1024.
-  Definition Hp : Flocq.Core.FLX.Prec_gt_0 53 := eq_refl.
-  Definition Hm : Prec_lt_emax 53 1024 := eq_refl.
-  Definition of_Z (z : Z) (szero : bool) : F :=
-    binary_normalize 53 1024 Hp Hm mode_NE z 0 szero.
-  Definition of_bits (b : N) : F :=
-    Flocq.IEEE754.Binary.B2BSN 53 1024 (Flocq.IEEE754.Bits.b64_of_bits (Z.of_N b)).
-  Definition to_bits (x : F) : N :=
-    if is_nan x then NAN_BITS
-    else Z.to_N (Flocq.IEEE754.Bits.bits_of_b64
-                   (Flocq.IEEE754.Binary.BSN2B 53 1024 Flocq.IEEE754.Bits.default_nan_pl64 x)).
-  Definition ftrunc (x : F) : F :=
-    match x with
-    | B754_finite s m e _ => if (0 <=? e)%Z then x else of_Z (Btrunc x) s
-    | _ => x
-    end.
-  (* Rust float->unsigned `as`: NaN -> 0, negative -> 0, too large / +inf -> MAX, else truncate *)
-  Definition fcast (max : N) (x : F) : N :=
-    match x with
-    | B754_nan => 0
-    | B754_zero _ => 0
-    | B754_infinity s => if s then 0 else max
-    | B754_finite s _ _ _ => if s then 0 else N.min max (Z.to_N (Btrunc x))
-    end.
-  Definition fis_zero (x : F) : bool := match x with B754_zero _ => true | _ => false end.
-  Definition minus_one : F := of_Z (-1) false.
-  Definition fpow (tbl : list (N * N)) (x : F) : F :=
-    match table_find (to_bits x) tbl with Some w => of_bits w | None => minus_one end.
-  Definition ar (tbl : list (N * N)) : arith := {|
-    T := F;
-    of_int := fun n => of_Z (Z.of_N n) false;
-    add := @Bplus 53 1024 Hp Hm mode_NE; sub := @Bminus 53 1024 Hp Hm mode_NE;
-    mul := @Bmult 53 1024 Hp Hm mode_NE; div := @Bdiv 53 1024 Hp Hm mode_NE;
-    pow_base := fpow tbl;
-    is_zero := fis_zero;
-    trunc := ftrunc;
-    cast := fcast
-  |}.
-End FL.
-
-Module PF.   (* Coq primitive floats: hardware binary64 through the kernel *)
-  Definition F := Coq.Floats.PrimFloat.float.
-  Definition of_fl (x : FL.F) : F := Flocq.IEEE754.PrimFloat.B2Prim x.
-  Definition to_fl (x : F) : FL.F := Flocq.IEEE754.PrimFloat.Prim2B x.
-  Definition pf_of_int (n : N) : F :=
-    if n <? 9007199254740992     (* < 2^53: exact, of_uint63 cannot round *)
-    then Coq.Floats.PrimFloat.of_uint63 (Coq.Numbers.Cyclic.Int63.Uint63.of_Z (Z.of_N n))
-    else of_fl (FL.of_Z (Z.of_N n) false).
-  Definition of_bits (b : N) : F := of_fl (FL.of_bits b).
-  Definition to_bits (x : F) : N := FL.to_bits (to_fl x).
-  Definition fpow (tbl : list (N * N)) (x : F) : F :=
-    match table_find (to_bits x) tbl with Some w => of_bits w | None => Coq.Floats.PrimFloat.opp Coq.Floats.PrimFloat.one end.
-  Definition ar (tbl : list (N * N)) : arith := {|
-    T := F;
-    of_int := pf_of_int;
-    add := Coq.Floats.PrimFloat.add; sub := Coq.Floats.PrimFloat.sub; mul := Coq.Floats.PrimFloat.mul; div := Coq.Floats.PrimFloat.div;
-    pow_base := fpow tbl;
-    is_zero := fun x => Coq.Floats.PrimFloat.eqb x Coq.Floats.PrimFloat.zero;
-    trunc := fun x => of_fl (FL.ftrunc (to_fl x));
-    cast := fun max x => FL.fcast max (to_fl x)
-  |}.
-End PF.
-
-(** * Correspondence check.
-    case = (use_flocq, len0, clock at creation, history, powf table, observed query results)
-    an observation = (per_sec bits (NaN canonical), eta ns, duration ns, elapsed ns);
-    [None] for eta/duration = the call panicked. *)
-(** Number literals of the case files: a decimal [N] literal of 19 digits costs Coq ~1.4 ms to
-    interpret, a primitive-integer literal ~0.1 ms, so the harness writes numbers >= 10^6 as
-    [(u n)] (n < 2^63) or [(uu hi lo)] (= hi * 2^63 + lo). *)
-Module Lit.
-  Import Coq.Numbers.Cyclic.Int63.Uint63.
-  Definition u (x : int) : N := Z.to_N (to_Z x).
-  Definition uu (hi lo : int) : N := u hi * 9223372036854775808 + u lo.
-  Arguments u x%uint63.
-  Arguments uu (hi lo)%uint63.
-End Lit.
-Export Lit.
-
-Definition obs_bits : Type := (N * option N * option N * N)%type.
-Definition est_case : Type :=
-  (bool * option N * N * list eop * list (N * N) * list obs_bits)%type.
-
-Definition obs_eqb (a b : obs_bits) : bool :=
-  let '(p1, e1, d1, l1) := a in
-  let '(p2, e2, d2, l2) := b in
-  (p1 =? p2) && option_eqb N.eqb e1 e2 && option_eqb N.eqb d1 d2 && (l1 =? l2).
-
-Definition run_obs (A : arith) (to_bits : T A -> N) (len0 : option N) (t0 : N) (ops : list eop)
-  : list obs_bits :=
-  let '(_, _, os) := bar_run A ops t0 (bar_new A len0 t0) in
-  map (fun o : obs A => let '(p, e, d, l) := o in (to_bits p, e, d, l)) os.
-
-(** sanity of the supplied powf data: 0.1^x in [0,1] for x >= 0, = 1 at x = 0 and < 1 for
-    every positive exponent that occurred (this is the float-level counterpart of the
-    "denominator 1 - W(t) > 0" theorem) *)
-Definition ONE_BITS : N := 4607182418800017408.   (* 1.0 *)
-Definition INF_BITS : N := 9218868437227405312.   (* +inf; larger patterns are NaN or negative *)
-Definition table_ok (t : list (N * N)) : bool :=
-  forallb (fun aw : N * N => let '(a, w) := aw in
-     (a <=? INF_BITS) && (w <=? ONE_BITS) && (if a =? 0 then w =? ONE_BITS else w <? ONE_BITS)) t.
-
-Definition est_check (c : est_case) : bool :=
-  let '(use_flocq, len0, t0, ops, tbl, observed) := c in
-  table_ok tbl
-  && list_eqb obs_eqb (run_obs (PF.ar tbl) PF.to_bits len0 t0 ops) observed
-  && (if use_flocq then list_eqb obs_eqb (run_obs (FL.ar tbl) FL.to_bits len0 t0 ops) observed
-      else true).
